@@ -140,10 +140,13 @@ type world struct {
 	st       *runStat
 }
 
-func newWorld(rec *recorder, seed int64, st *runStat) *world {
+func newWorld(rec *recorder, seed int64, st *runStat) *world { return newWorldAt(rec, seed, st, 0) }
+
+// newWorldAt: launch = genesis timestamp (0 = the simulator's fixed default in 2023, reproducible block ids).
+func newWorldAt(rec *recorder, seed int64, st *runStat, launch uint64) *world {
 	rng := rand.New(rand.NewSource(seed))
 	epoch := []uint32{3, 5, 30}[rng.Intn(3)]
-	net := sim.NewNet(sim.Options{Validators: nValidators, Nodes: 1, EpochLength: epoch, ExtraAccts: nExtra, SkipLogs: true})
+	net := sim.NewNet(sim.Options{Validators: nValidators, Nodes: 1, EpochLength: epoch, ExtraAccts: nExtra, SkipLogs: true, LaunchTime: launch})
 	w := &world{rec: rec, net: net, rng: rng, tag: net.God.Repo.ChainTag(), nonce: uint64(seed) << 20, palette: topicPalette(),
 		blocks: map[thor.Bytes32]*block.Block{}, children: map[thor.Bytes32]int{}, b0: net.B0, st: st}
 	w.blocks[net.B0.Header().ID()] = net.B0
@@ -348,6 +351,7 @@ type stack struct {
 	wasCanon map[thor.Bytes32]bool
 	nq       int
 	dead     bool // a call into thor code failed: the stream ends with an Error event
+	closed   bool
 }
 
 // die ends the stream: the failure of thor code is logged where it happened; nothing is delivered to this node afterwards.
@@ -363,6 +367,10 @@ func (s *stack) die(re *realErr, extra trace.Ev) {
 func (w *world) openStack(idx int) *stack {
 	ldb, err := logdb.NewMem()
 	must(err)
+	return w.openStackWith(idx, ldb)
+}
+
+func (w *world) openStackWith(idx int, ldb *logdb.LogDB) *stack {
 	s := &stack{w: w, idx: idx, kv: kvrec.New(), ldb: ldb, wasCanon: map[thor.Bytes32]bool{}}
 	nd, err := w.net.OpenStack(idx%nValidators, s.kv, ldb, nil)
 	must(err)
@@ -483,7 +491,12 @@ func (s *stack) has(blk *block.Block) bool {
 	return err == nil
 }
 
-func (s *stack) close() { s.node.Node.VerifClose() }
+func (s *stack) close() {
+	if !s.closed {
+		s.node.Node.VerifClose()
+		s.closed = true
+	}
+}
 
 func resetEv(run, node int, scen string, seed int64) trace.Ev {
 	return trace.Ev{"e": "Reset", "run": run, "node": node, "scen": scen, "seed": seed, "name": fmt.Sprintf("run%d-n%d", run, node)}
